@@ -123,7 +123,7 @@ def host_histories(sc, lg, end):
     return out
 
 
-def judge_hosts(ctx, sc, flavour, res, res_quiet):
+def judge_hosts(ctx, sc, flavour, res, res_quiet, corrupt=None):
     w0 = {"scenario": sc, "flavour": flavour, "part": "host"}
     for r in (res, res_quiet):
         if r.timed_out:
@@ -131,6 +131,8 @@ def judge_hosts(ctx, sc, flavour, res, res_quiet):
             return False
     lg = orc.parse(res.out)
     lq = orc.parse(res_quiet.out)
+    if corrupt:
+        corrupt(lg, lq)
     if lg.bad or lq.bad:
         raise HarnessFailure("avail harness rejected its input: %s" % (lg.bad + lq.bad)[:3])
     for r, l, which in ((res, lg, "observed"), (res_quiet, lq, "quiet")):
@@ -229,13 +231,15 @@ def classify(sc, lg, hn, segs, clock, feats):
 
 
 # ------------------------------------------------------------------------------------------------------------ links
-def judge_links(ctx, sc, flavour, res, res_quiet):
+def judge_links(ctx, sc, flavour, res, res_quiet, corrupt=None):
     w0 = {"scenario": sc, "flavour": flavour, "part": "link"}
     for r in (res, res_quiet):
         if r.timed_out:
             ctx.inconclusive("avail harness watchdog")
             return False
     lg, lq = orc.parse(res.out), orc.parse(res_quiet.out)
+    if corrupt:
+        corrupt(lg, lq)
     if lg.bad or lq.bad:
         raise HarnessFailure("avail harness rejected its input: %s" % (lg.bad + lq.bad)[:3])
     for r, l in ((res, lg), (res_quiet, lq)):
@@ -367,8 +371,8 @@ def directed_links():
 def run(ctx):
     build.ensure("hooks")
     build.harness("avail.cpp", "hooks")
-    n = ctx.size(quick=150, thorough=6000)
-    nl = ctx.size(quick=40, thorough=1500)
+    n = ctx.size(quick=110, thorough=6000)
+    nl = ctx.size(quick=30, thorough=1500)
     nasan = max(2, n // 10)
     cases = []
     for name, sc in directed():
